@@ -93,16 +93,16 @@ Proof.
     destruct (embed_list l) as [l'|] eqn:El; [|discriminate].
     destruct (TP.tc_string_list l) as [ss| |] eqn:Es; cbn [bind]; try discriminate.
     intros E1 E2; injection E1 as <-; injection E2 as <-.
-    rewrite tc_string_tuple. f_equal. f_equal.
-    rewrite commas_sepby, TP.join_sepby. f_equal.
-    revert l' ss El Es. induction IH as [|c r Pc Pr IHr]; intros l' ss; cbn [embed_list TP.tc_string_list].
-    + intros E1 E2; injection E1 as <-; injection E2 as <-. reflexivity.
-    + destruct (embed [] c) as [c'|] eqn:Ec; [|discriminate].
-      destruct (embed_list r) as [r'|] eqn:Er; [|discriminate].
-      destruct (TM.tc_string c) as [sc| |] eqn:Esc; cbn [bind]; try discriminate.
-      destruct (TP.tc_string_list r) as [sr| |] eqn:Esr; cbn [bind]; try discriminate.
-      intros E1 E2; injection E1 as <-; injection E2 as <-. cbn [map].
-      rewrite (Pc [] c' sc Ec eq_refl), (IHr r' sr eq_refl eq_refl). reflexivity.
+    assert (Hm : map tc_string l' = ss).
+    { revert l' ss El Es. induction IH as [|c r Pc Pr IHr]; intros l' ss; cbn [embed_list TP.tc_string_list].
+      - intros E1 E2; injection E1 as <-; injection E2 as <-. reflexivity.
+      - destruct (embed [] c) as [c'|] eqn:Ec; [|discriminate].
+        destruct (embed_list r) as [r'|] eqn:Er; [|discriminate].
+        destruct (TM.tc_string c) as [sc| |] eqn:Esc; cbn [bind]; try discriminate.
+        destruct (TP.tc_string_list r) as [sr| |] eqn:Esr; cbn [bind]; try discriminate.
+        intros E1 E2; injection E1 as <-; injection E2 as <-. cbn [map].
+        rewrite (Pc [] c' sc Ec eq_refl), (IHr r' sr eq_refl eq_refl). reflexivity. }
+    rewrite tc_string_tuple, Hm, commas_sepby, TP.join_sepby. reflexivity.
 Qed.
 
 (* every tree the parser's abstraction function gives a type to can be embedded *)
